@@ -203,13 +203,16 @@ func (v *inputFieldDefaultInjectionVisitor) jsonWalker(fieldType int, defaultVal
 		if err != nil {
 			return
 		}
+		// the position of this element: it advances for every element, processed or not
+		idx := i
+		i++
 		if listOfList && dataType == jsonparser.Array {
 			newVal, replaced, err := v.processObjectOrListInput(typeDoc.Types[fieldType].OfType, value, typeDoc)
 			if err != nil {
 				return
 			}
 			if replaced {
-				*finalVal, err = jsonparser.Set(defaultValue, newVal, fmt.Sprintf("[%d]", i))
+				*finalVal, err = jsonparser.Set(defaultValue, newVal, fmt.Sprintf("[%d]", idx))
 				defaultValue = *finalVal
 				if err != nil {
 					return
@@ -222,17 +225,14 @@ func (v *inputFieldDefaultInjectionVisitor) jsonWalker(fieldType int, defaultVal
 				return
 			}
 			if replaced {
-				*finalVal, err = jsonparser.Set(defaultValue, newVal, fmt.Sprintf("[%d]", i))
+				*finalVal, err = jsonparser.Set(defaultValue, newVal, fmt.Sprintf("[%d]", idx))
 				defaultValue = *finalVal
 				if err != nil {
 					return
 				}
 				*finalValueReplaced = true
 			}
-		} else {
-			return
 		}
-		i++
 	}
 
 }
